@@ -679,3 +679,4 @@ PROPS["C01"]["rule"] += " When an event is refused because of an array the index
 _OPT_NOTE = " Patterns include optional fields (a field whose value is an optional variable, \"??o\": it need not be there, and binds the variable if it is); the reference matcher implements them, and the data instantiated from a pattern leaves such a field out half of the time."
 for _p in ("C01", "C02", "C05"):
     PROPS[_p]["rule"] += _OPT_NOTE
+PROPS["C03"]["rule"] += " Patterns may use property variables, and one case in ten is a property chain: a variable bound by an earlier conjunct (or by the event) used as a property by a later pattern, bare or under `not`, over facts that offer several properties. The reference evaluator substitutes bound variables in property position too (when bound to a string)."
